@@ -336,7 +336,7 @@ PROPS = {
                 'prescribed singular values; every solver path against a Householder-QR reference in long double. '
                 'S: every sequence (to the stated depth) of 81 problem kinds (estimate size, data size, solver path, '
                 'preconditioner kept / two-argument / one-argument setter) solved with one solver object whose J/Y/W buffers are NaN-poisoned before '
-                'each problem; result vs a fresh solver. states = distinct (buffer rows, buffer cols, estimate size, '
+                'each problem; result vs a fresh solver; every unweighted step is solved again by the other path and by the first one without rewriting the problem, each answer vs the fresh solver. states = distinct (buffer rows, buffer cols, estimate size, '
                 'preconditioner) tuples, transitions = problems solved in S. non-trivial = kappa>1 or non-unit magnitude or '
                 'weights or preconditioner (L); any problem after the first (S).',
         'assumptions': ['normal-equation accuracy bound 8 p eps kappa(J)^2; cases with 8 p kappa^2 eps > 0.5 carry no digits and are skipped (counted in trivial_skipped)',
